@@ -585,6 +585,17 @@ func SetValue(dest, v reflect.Value) {
 	case reflect.Uint, reflect.Uint8, reflect.Uint16, reflect.Uint32, reflect.Uint64:
 		dest.SetUint(EnsureUint64(v.Interface()))
 		return
+	case reflect.Map:
+		// a map of an unnamed type travels untyped and is read as map[interface{}]interface{};
+		// as an element of a list or map it is converted to the declared map type entry by entry
+		if v.Kind() == reflect.Map {
+			m := reflect.MakeMapWithSize(dest.Type(), v.Len())
+			for _, k := range v.MapKeys() {
+				setMapEntry(m, k.Interface(), v.MapIndex(k).Interface())
+			}
+			dest.Set(m)
+			return
+		}
 	}
 
 	dest.Set(v)
